@@ -16,6 +16,7 @@ import PhpVerif.Gen.Builder
 import PhpVerif.Model.Scan
 import PhpVerif.Gen.ScanDFA
 import PhpVerif.Gen.ScanCode
+import PhpVerif.Model.Pipeline
 /-
 Line-protocol driver: runs the executable model definitions on the operations the Go harness
 also runs on the real code.  One request per line, one answer per line.  Core only (no Mathlib)
@@ -296,6 +297,19 @@ def runScan (ge73 : Bool) (src : Bytes) : String :=
     | none => "-"
   ";".intercalate (toks.map tokOutStr) ++ " E " ++ (if errs.isEmpty then "-" else errs) ++ " N " ++ natsStr s.nl ++ " X " ++ fault
 
+/-! `pparse <5|7> <0|1> <hex>`: the whole pipeline model on source bytes -/
+def runPipeline (t : YYTab) (tbl : PathTable) (ge73 : Bool) (src : Bytes) : String :=
+  let numString := ((Gen.tokenIds.find? (fun p => p.1 == nm! "T_NUM_STRING")).map (·.2)).getD 0
+  let o := parseBytes scanProg t Gen.posCombs tbl numString ge73 src.toArray
+  match o.fault with
+  | some m => "fault:" ++ m.replace " " "_"
+  | none =>
+    let root := match o.root with
+      | some r => vStr r
+      | none => "_"
+    let offs := ",".intercalate (o.toks.map (fun t => s!"{t.id}:{t.ts}:{t.te}"))
+    s!"{(o.code.getD 9)} {o.semErrors} {o.lexErrors} {root} {offs}"
+
 def handle (ws : List String) : String :=
   match ws with
   | ["pool", bs, n] =>
@@ -394,6 +408,8 @@ def handle (ws : List String) : String :=
     match pTree (enc.splitOn ",") with
     | some (t, []) => "x" ++ toHex (render litBytes (chunks C15.realCfg false t))
     | _ => "bad-op"
+  | ["pparse", "7", f, h] => runPipeline Gen.tables7 pathTable7 (f == "1") (unhex h)
+  | ["pparse", "5", f, h] => runPipeline Gen.tables5 pathTable5 (f == "1") (unhex h)
   | ["scan", f, h] => runScan (f == "1") (unhex h)
   | ["parse", "7", ts] => runParse Gen.tables7 pathTable7 ts
   | ["parse", "5", ts] => runParse Gen.tables5 pathTable5 ts
